@@ -145,4 +145,35 @@ func init() {
 			return bp
 		},
 	})
+
+	// (3) Delegators overriding the vote of the validator they delegate to: validators 0..3
+	// vote yes/yes/no/abstain, the genesis delegators 0 (-> validator 0), 9 (-> 1), 6 (-> 2),
+	// 3 (-> 3) vote differently (or the same), one proposal per epoch.
+	scripts = append(scripts, &script{
+		name: "override", blocks: 10, knobs: baseKnobs,
+		block: func(w *world, b int) *blockPlan {
+			g := w.g
+			bp := &blockPlan{proposer: b % len(w.props), votes: muxdrv.VotesMask(uint64(b)), votesTag: "mask"}
+			local := map[staking.Address]uint64{}
+			fee := muxdrv.Fee(33, muxdrv.DefaultGas)
+			switch b % 3 {
+			case 0:
+				k := g.Accounts[1].Key
+				bp.txs = append(bp.txs, genTx{raw: muxdrv.Sign(k, muxdrv.TxSubmitChangeParams(w.nextNonce(k, local), fee, uint64(11+b))), kind: "submit_change_params"})
+			case 1:
+				vv := []governance.Vote{governance.VoteYes, governance.VoteYes, governance.VoteNo, governance.VoteAbstain}
+				dv := map[int]governance.Vote{0: governance.VoteNo, 9: governance.VoteYes, 6: governance.VoteAbstain, 3: governance.VoteYes}
+				for _, id := range w.proposalIDs() {
+					for i, v := range g.Validators {
+						bp.txs = append(bp.txs, genTx{raw: muxdrv.Sign(v.Entity, muxdrv.TxCastVote(w.nextNonce(v.Entity, local), fee, id, vv[i%4])), kind: "cast_vote"})
+					}
+					for _, ai := range []int{0, 9, 6, 3} {
+						a := g.Accounts[ai]
+						bp.txs = append(bp.txs, genTx{raw: muxdrv.Sign(a.Key, muxdrv.TxCastVote(w.nextNonce(a.Key, local), fee, id, dv[ai])), kind: "cast_vote"})
+					}
+				}
+			}
+			return bp
+		},
+	})
 }
